@@ -10,6 +10,7 @@ import (
 	"os/exec"
 	"path/filepath"
 	"sort"
+	"strconv"
 	"strings"
 	"sync"
 	"syscall"
@@ -45,6 +46,7 @@ type workerState struct {
 	lastBeat time.Time
 	done     bool
 	killed   bool // SIGQUIT sent by the watchdog
+	mem      bool // ... because of its memory use
 	exit     int
 	summary  *Msg
 	viols    []Msg
@@ -252,6 +254,8 @@ func runPhase(a OrchArgs, info *props.Info, seed uint64, budget time.Duration, a
 	}
 	go func() { wg.Wait(); close(events) }()
 	tick := time.NewTicker(2 * time.Second)
+	memTick := time.NewTicker(200 * time.Millisecond)
+	defer memTick.Stop()
 	defer tick.Stop()
 	live := len(ws)
 	stopAll := func() {
@@ -290,6 +294,22 @@ func runPhase(a OrchArgs, info *props.Info, seed uint64, budget time.Duration, a
 			case "summary":
 				w.summary = e.msg
 				w.inflight = -1
+			}
+		case <-memTick.C:
+			// a run whose memory grows without bound is a run that does not come back either (an
+			// endless loop that keeps appending); it must not be allowed to take the machine down
+			for _, w := range ws {
+				if !w.done && !w.killed && w.cmd.Process != nil && rssBytes(w.cmd.Process.Pid) > memLimit(w.race) {
+					w.killed, w.mem = true, true
+					w.cmd.Process.Signal(syscall.SIGQUIT)
+					stopAll()
+					go func(w *workerState) {
+						time.Sleep(10 * time.Second)
+						if !w.done {
+							w.cmd.Process.Kill()
+						}
+					}(w)
+				}
 			}
 		case <-tick.C:
 			for _, w := range ws {
@@ -402,10 +422,20 @@ func runOne(a OrchArgs, race, instr bool, args []string, limit time.Duration) (e
 	}
 	done := make(chan error, 1)
 	go func() { done <- cmd.Wait() }()
-	select {
-	case err := <-done:
-		return exitCodeOf(err), false, headTail(buf.String(), 5000)
-	case <-time.After(limit):
+	deadline := time.After(limit)
+	memTick := time.NewTicker(200 * time.Millisecond)
+	defer memTick.Stop()
+	for {
+		select {
+		case err := <-done:
+			return exitCodeOf(err), false, headTail(buf.String(), 5000)
+		case <-memTick.C:
+			if rssBytes(cmd.Process.Pid) <= memLimit(race) {
+				continue
+			}
+		case <-deadline:
+		}
+		// time or memory limit exceeded: the run does not come back
 		cmd.Process.Signal(syscall.SIGQUIT)
 		select {
 		case <-done:
@@ -415,6 +445,33 @@ func runOne(a OrchArgs, race, instr bool, args []string, limit time.Duration) (e
 		}
 		return -1, true, headTail(buf.String(), 5000)
 	}
+}
+
+// rssBytes is the resident set size of a process (0 if it cannot be read).
+func rssBytes(pid int) int64 {
+	b, err := ioutil.ReadFile(fmt.Sprintf("/proc/%d/statm", pid))
+	if err != nil {
+		return 0
+	}
+	f := strings.Fields(string(b))
+	if len(f) < 2 {
+		return 0
+	}
+	pages, _ := strconv.ParseInt(f[1], 10, 64)
+	return pages * int64(os.Getpagesize())
+}
+
+// memLimit is the resident set size beyond which a worker is treated like a hung one
+// (VERIF_MEM_MB; default 3 GB, 8 GB in the race build whose shadow memory multiplies everything).
+func memLimit(race bool) int64 {
+	mb := int64(3072)
+	if race {
+		mb = 8192
+	}
+	if v, err := strconv.ParseInt(os.Getenv("VERIF_MEM_MB"), 10, 64); err == nil && v > 0 {
+		mb = v
+	}
+	return mb << 20
 }
 
 // crashFindingSignatures: open known findings that end a run abnormally, recognised by a frame
@@ -500,6 +557,7 @@ func handleCrash(a OrchArgs, info *props.Info, cr crashCase) (violationLine, tro
 	if err != nil {
 		return "", err.Error()
 	}
+	full := *rf
 	if !hung {
 		// minimise the tape with a small budget: every attempt is a fresh process
 		min, st := shrinkCrash(a, rf, path, limit)
@@ -512,6 +570,15 @@ func handleCrash(a OrchArgs, info *props.Info, cr crashCase) (violationLine, tro
 	}
 	// confirm from the tape
 	rc, _ := ReplayCrash(a.binFor(false, cr.instr), a.binFor(true, cr.instr), path, limit)
+	if rc != 1 && len(rf.Tape) < len(full.Tape) {
+		// the minimised tape does not show it again (a minimisation step was accepted on a
+		// coincidence): fall back to the tape as recorded
+		*rf = full
+		if _, err := WriteReplay(rf); err != nil {
+			return "", err.Error()
+		}
+		rc, _ = ReplayCrash(a.binFor(false, cr.instr), a.binFor(true, cr.instr), path, limit)
+	}
 	if rc != 1 {
 		return "", fmt.Sprintf("crash of run %d reproduces by seed but not from its recorded tape %s", cr.run, path)
 	}
@@ -544,7 +611,30 @@ func readTapeFile(p string) (vals []uint64, labels []string) {
 
 // ReplayCrash replays a crash/hang-mode file in a child process. Returns 1 when the child
 // ends the same abnormal way, 0 when it does not, 2 on trouble.
+//
+// In the race build the runtime makes sync.Pool drop a quarter of the items put into it, chosen at
+// random: a race that needs a pooled object to be handed from one task to another is then a
+// property of the schedule on the tape AND of those drops, and one replay shows it with a
+// probability below one. Such a file is therefore replayed up to raceReplayAttempts times; one
+// race report is a reproduction (a report is never produced by anything but a race).
 func ReplayCrash(bin, raceBin, path string, limit time.Duration) (int, string) {
+	rf, err := ReadReplay(path)
+	if err == nil && rf.Race && rf.Mode == "crash" && rf.ExitCode == 66 {
+		var rc int
+		var out string
+		for i := 0; i < raceReplayAttempts; i++ {
+			if rc, out = replayCrashOnce(bin, raceBin, path, limit); rc != 0 {
+				break
+			}
+		}
+		return rc, out
+	}
+	return replayCrashOnce(bin, raceBin, path, limit)
+}
+
+const raceReplayAttempts = 6
+
+func replayCrashOnce(bin, raceBin, path string, limit time.Duration) (int, string) {
 	rf, err := ReadReplay(path)
 	if err != nil {
 		return 2, err.Error()
@@ -585,7 +675,7 @@ func shrinkCrash(a OrchArgs, rf *ReplayFile, path string, limit time.Duration) (
 		if ioutil.WriteFile(tmp, b, 0o644) != nil {
 			return false
 		}
-		rc, _ := ReplayCrash(a.binFor(false, rf.Instr), a.binFor(true, rf.Instr), tmp, limit)
+		rc, _ := replayCrashOnce(a.binFor(false, rf.Instr), a.binFor(true, rf.Instr), tmp, limit)
 		if rc == 1 {
 			st.Accepted++
 			return true
